@@ -45,7 +45,7 @@ Fixpoint build (fuel : nat) (toks : list tok) (idx : Z) (indent : nat) (top : bo
       | TCData s => match build f r nx indent top with
                     | Some (ns, rest, i, d) => Some (NCData N s :: ns, rest, i, d) | None => None end
       | TPI _ | TDoctype _ => match build f r nx indent top with
-                              | Some (ns, rest, i, d) => Some (NOther N :: ns, rest, i, d) | None => None end
+                              | Some (ns, rest, i, d) => Some (NOther N t :: ns, rest, i, d) | None => None end
       | TEmpty n a => match build f r nx indent top with
                       | Some (ns, rest, i, d) => Some (NLeaf N (mk_el n a idx indent true) :: ns, rest, i, d) | None => None end
       | TStart n a =>
